@@ -236,10 +236,14 @@ pub fn analyze(sc: &Scenario, out: &RunOut) -> Analysis {
                 }
                 // Periodic requests due in this step: their next occurrence
                 // counts as scheduled during this step.
+                // (The occurrence is re-armed when its predecessor is taken from the queue, i.e.
+                // before any computation of that step: whatever is scheduled during the step,
+                // by handlers or by the clock, comes after it.)
                 for d in dues.iter() {
                     if reqs[d.req].kind.period().is_some() {
                         let o = reqs[d.req].order.2;
-                        reqs[d.req].order = (sidx, close_idx, o);
+                        let _ = close_idx;
+                        reqs[d.req].order = (sidx, sidx, o);
                     }
                 }
                 dues.clear();
